@@ -211,6 +211,28 @@ Proof.
     + destruct (String.eqb_spec k k'); [contradiction|]. apply IH. exact Hnd'.
 Qed.
 
+  Lemma In_keys_interp_vars vars launch env k :
+    In k (keys (interp_vars vars launch env)) <-> In k vars /\ In k (keys launch) /\ ~ In k (keys env).
+  Proof.
+    induction vars as [|v r IH]; cbn [interp_vars]; [cbn; tauto|].
+    destruct (lookup v launch) as [lv|] eqn:El.
+    - assert (Hv : In v (keys launch)) by (eapply lookup_Some_In; eassumption).
+      destruct (mem v env) eqn:Em.
+      + apply mem_true_iff in Em. rewrite IH. cbn [In]. split.
+        * intros [H1 H2]. split; [right; exact H1|exact H2].
+        * intros [[<-|H1] [H2 H3]]; [contradiction|split; [exact H1|split; assumption]].
+      + assert (Hn : ~ In v (keys env)).
+        { intros H. apply mem_true_iff in H. congruence. }
+        cbn [keys List.map fst In]. fold (keys (interp_vars r launch env)). rewrite IH. split.
+        * intros [<-|[H1 H2]]; [split; [left; reflexivity|split; assumption]|split; [right; exact H1|exact H2]].
+        * intros [[<-|H1] H2]; [left; reflexivity|right; split; assumption].
+    - rewrite IH. cbn [In]. split.
+      + intros [H1 H2]. split; [right; exact H1|exact H2].
+      + intros [[<-|H1] [H2 H3]]; [|split; [exact H1|split; assumption]].
+        apply lookup_None_iff in El. contradiction.
+  Qed.
+
+
 (* ------------------------------------------------------------------ steps of environmentWithName *)
 Section Steps.
   Variable tsub : map -> string -> string.
@@ -326,27 +348,6 @@ Section Steps.
     intros H. unfold expand_step. exact (lookup_map_filter (fun v => osexp launch (tsub env v)) env k H).
   Qed.
 
-  Lemma In_keys_interp_vars vars launch env k :
-    In k (keys (interp_vars vars launch env)) <-> In k vars /\ In k (keys launch) /\ ~ In k (keys env).
-  Proof.
-    induction vars as [|v r IH]; cbn [interp_vars]; [cbn; tauto|].
-    destruct (lookup v launch) as [lv|] eqn:El.
-    - assert (Hv : In v (keys launch)) by (eapply lookup_Some_In; eassumption).
-      destruct (mem v env) eqn:Em.
-      + apply mem_true_iff in Em. rewrite IH. cbn [In]. split.
-        * intros [H1 H2]. split; [right; exact H1|exact H2].
-        * intros [[<-|H1] [H2 H3]]; [contradiction|split; [exact H1|split; assumption]].
-      + assert (Hn : ~ In v (keys env)).
-        { intros H. apply mem_true_iff in H. congruence. }
-        cbn [keys List.map fst In]. fold (keys (interp_vars r launch env)). rewrite IH. split.
-        * intros [<-|[H1 H2]]; [split; [left; reflexivity|split; assumption]|split; [right; exact H1|exact H2]].
-        * intros [[<-|H1] H2]; [left; reflexivity|right; split; assumption].
-    - rewrite IH. cbn [In]. split.
-      + intros [H1 H2]. split; [right; exact H1|exact H2].
-      + intros [[<-|H1] [H2 H3]]; [|split; [exact H1|split; assumption]].
-        apply lookup_None_iff in El. contradiction.
-  Qed.
-
   (* ---------------------------------------------------------------- C17_sources *)
   Definition allowed (c : cfg) (launch sel : map) (interp : bool) (k : string) : Prop :=
     In k (keys (sysv c)) \/ In k (keys sel) \/
@@ -419,3 +420,324 @@ Section Steps.
     destruct H as [H|[H|[H|[H|[]]]]]; discriminate.
   Qed.
 End Steps.
+
+(* ------------------------------------------------------------------ names *)
+Lemma lower_ascii_idem a : lower_ascii (lower_ascii a) = lower_ascii a.
+Proof. destruct a as [[] [] [] [] [] [] [] []]; reflexivity. Qed.
+
+Lemma lower_idem s : lower (lower s) = lower s.
+Proof. induction s as [|a s IH]; cbn; [reflexivity|]. rewrite lower_ascii_idem, IH. reflexivity. Qed.
+
+Lemma norm_name_lower name : lower (norm_name name) = norm_name name.
+Proof. unfold norm_name. apply lower_idem. Qed.
+
+(* from_dict only moves environments to other names: every environment held afterwards was declared *)
+Lemma lower_step_values acc n x :
+  In x (lower_step acc n) -> exists n', In (n', snd x) acc.
+Proof.
+  unfold lower_step. destruct (String.eqb n (lower n)).
+  - intros H. exists (fst x). destruct x; exact H.
+  - destruct (lookup n acc) as [v|] eqn:E.
+    + intros H. apply In_remove_sub in H. apply In_set_sub in H as [->|H].
+      * exists n. cbn. apply lookup_Some_In_pair. exact E.
+      * exists (fst x). destruct x; exact H.
+    + intros H. exists (fst x). destruct x; exact H.
+Qed.
+
+Lemma lower_names_values E x : In x (lower_names E) -> exists n', In (n', snd x) E.
+Proof.
+  unfold lower_names. generalize (keys E) as ks. intros ks. revert E x.
+  induction ks as [|n r IH]; intros E x; cbn [fold_left].
+  - intros H. exists (fst x). destruct x; exact H.
+  - intros H. destruct (IH _ _ H) as [n1 H1]. destruct (lower_step_values _ _ _ H1) as [n2 H2].
+    exists n2. exact H2.
+Qed.
+
+Definition dict_tab (E : envtab) : Prop := forall n e, In (n, e) E -> NoDup (keys e).
+
+Lemma dict_tab_lower E : dict_tab E -> dict_tab (lower_names E).
+Proof. intros H n e Hin. destruct (lower_names_values _ _ Hin) as [n' H']. exact (H n' e H'). Qed.
+
+(* every environment of the document is a dictionary (unique variable names) *)
+Definition dict_cfg (c : cfg) : Prop := dict_tab (denvs c) /\ dict_tab (penvs c).
+
+Lemma dict_cfg_D c : dict_cfg c -> dict_tab (D c).
+Proof. intros [H _]. apply dict_tab_lower. exact H. Qed.
+Lemma dict_cfg_P c : dict_cfg c -> dict_tab (P c).
+Proof. intros [H1 H2]. unfold P. destruct (is_default c); apply dict_tab_lower; assumption. Qed.
+
+(* ------------------------------------------------------------------ layering *)
+(* the string value platform table E gives variable k of environment n *)
+Definition declared (E : envtab) (n k : string) : option string :=
+  match lookup n E with
+  | Some e => option_map to_str (lookup k e)
+  | None => None
+  end.
+
+Definition layered (c : cfg) (n k : string) : option string :=
+  match declared (P c) n k with
+  | Some v => Some v
+  | None => if is_default c then None else declared (D c) n k
+  end.
+
+Definition stringify (e : rawenv) : map := update [] (List.map (fun kv => (fst kv, to_str (snd kv))) e).
+
+Lemma NoDup_nil_keys : NoDup (keys (@nil (string * string))).
+Proof. constructor. Qed.
+
+Lemma NoDup_stringify e : NoDup (keys (stringify e)).
+Proof. apply NoDup_keys_update. apply NoDup_nil_keys. Qed.
+
+Lemma lookup_stringify e k : NoDup (keys e) -> lookup k (stringify e) = option_map to_str (lookup k e).
+Proof.
+  intros H. unfold stringify. rewrite lookup_update.
+  - rewrite (lookup_map_val to_str). destruct (lookup k e); reflexivity.
+  - rewrite (keys_map_val (fun kv => to_str (snd kv))). exact H.
+Qed.
+
+Lemma gpe_spec E n : lower n = n -> n <> "none" ->
+  gpe E n = option_map stringify (lookup n E).
+Proof.
+  intros Hl Hn. unfold gpe. rewrite Hl.
+  destruct (String.eqb_spec n "none"); [contradiction|]. destruct (lookup n E); reflexivity.
+Qed.
+
+Lemma get_environment_unknown c n : lower n = n -> n <> "none" ->
+  (get_environment c n = ErrUnknown <->
+   lookup n (P c) = None /\ (is_default c = false -> lookup n (D c) = None)).
+Proof.
+  intros Hl Hn. unfold get_environment. rewrite !gpe_spec by assumption.
+  destruct (is_default c) eqn:Ed.
+  - destruct (lookup n (P c)); cbn; split; try discriminate.
+    + intros [H _]. discriminate.
+    + intros _. split; [reflexivity|discriminate].
+    + reflexivity.
+  - destruct (lookup n (P c)); destruct (lookup n (D c)); cbn; split; try discriminate;
+      try (intros [H1 H2]; try discriminate; specialize (H2 eq_refl); discriminate).
+    + intros _. split; reflexivity.
+    + reflexivity.
+Qed.
+
+Lemma get_environment_NoDup c n e : get_environment c n = Ok e -> NoDup (keys e).
+Proof.
+  unfold get_environment. destruct (is_default c).
+  - destruct (gpe (P c) n); [|discriminate]. intros [= <-]. apply NoDup_keys_update. constructor.
+  - assert (Hd : forall E, NoDup (keys (match gpe E n with Some d => d | None => [] end))).
+    { intros E. unfold gpe. destruct (String.eqb (lower n) "none"); [constructor|].
+      destruct (lookup (lower n) E); [apply NoDup_stringify|constructor]. }
+    destruct (gpe (P c) n) eqn:Ep; destruct (gpe (D c) n) eqn:Ed; try discriminate;
+      intros [= <-].
+    + apply NoDup_keys_update. specialize (Hd (D c)). rewrite Ed in Hd. exact Hd.
+    + apply NoDup_keys_update. constructor.
+    + specialize (Hd (D c)). rewrite Ed in Hd. exact Hd.
+Qed.
+
+Lemma get_environment_lookup c n e k : lower n = n -> n <> "none" ->
+  dict_tab (D c) -> dict_tab (P c) ->
+  get_environment c n = Ok e -> lookup k e = layered c n k.
+Proof.
+  intros Hl Hn HD HP. unfold get_environment, layered, declared. rewrite !gpe_spec by assumption.
+  destruct (is_default c) eqn:Ed.
+  - destruct (lookup n (P c)) as [pe|] eqn:Ep; cbn; [|discriminate]. intros [= <-].
+    rewrite lookup_update by apply NoDup_stringify. cbn.
+    rewrite lookup_stringify by (eapply HP; apply lookup_Some_In_pair; exact Ep).
+    destruct (option_map to_str (lookup k pe)); reflexivity.
+  - destruct (lookup n (P c)) as [pe|] eqn:Ep; destruct (lookup n (D c)) as [de|] eqn:Edd; cbn; try discriminate;
+      intros [= <-].
+    + rewrite lookup_update by apply NoDup_stringify.
+      rewrite !lookup_stringify by (first [solve [eapply HP; apply lookup_Some_In_pair; eassumption]
+                                          |solve [eapply HD; apply lookup_Some_In_pair; eassumption]]).
+      reflexivity.
+    + rewrite lookup_update by apply NoDup_stringify.
+      rewrite lookup_stringify by (eapply HP; apply lookup_Some_In_pair; eassumption).
+      cbn. reflexivity.
+    + try (rewrite lookup_update by constructor). cbn.
+      rewrite lookup_stringify by (eapply HD; apply lookup_Some_In_pair; eassumption).
+      reflexivity.
+Qed.
+
+(* ------------------------------------------------------------------ the case split of `selected` *)
+Definition special (n : string) : Prop := n = "" \/ n = "environment" \/ n = "none".
+
+Lemma selected_default c launch name : norm_name name = "" \/ norm_name name = "environment" ->
+  selected c launch name = Ok (default_environment c launch).
+Proof. unfold selected. intros [-> | ->]; reflexivity. Qed.
+
+Lemma selected_none c launch name : norm_name name = "none" -> selected c launch name = Ok [].
+Proof. unfold selected. intros ->. reflexivity. Qed.
+
+Lemma selected_named c launch name : ~ special (norm_name name) ->
+  selected c launch name = get_environment c (norm_name name).
+Proof.
+  intros Hs. unfold selected.
+  destruct (String.eqb_spec (norm_name name) ""); [exfalso; apply Hs; left; assumption|].
+  destruct (String.eqb_spec (norm_name name) "environment"); [exfalso; apply Hs; right; left; assumption|].
+  destruct (String.eqb_spec (norm_name name) "none"); [exfalso; apply Hs; right; right; assumption|].
+  cbn [orb]. destruct (get_environment c (norm_name name)) eqn:E; [reflexivity|].
+  destruct (is_default c) eqn:Ed; [reflexivity|].
+  (* the retry on platform default cannot succeed: the first attempt already looked there *)
+  assert (Hn : norm_name name <> "none") by assumption.
+  apply (get_environment_unknown c _ (norm_name_lower name) Hn) in E as [_ E]. specialize (E Ed).
+  unfold get_environment_default. rewrite gpe_spec by (try apply norm_name_lower; assumption).
+  rewrite E. reflexivity.
+Qed.
+
+Lemma default_environment_launch c launch :
+  lookup "environment" (P c) = None -> (is_default c = false -> lookup "environment" (D c) = None) ->
+  default_environment c launch = launch.
+Proof.
+  intros H1 H2. unfold default_environment.
+  assert (E : get_environment c "environment" = ErrUnknown).
+  { apply get_environment_unknown; [reflexivity|discriminate|split; assumption]. }
+  rewrite E. reflexivity.
+Qed.
+
+Lemma default_environment_declared c launch k : dict_cfg c ->
+  ~ (lookup "environment" (P c) = None /\ (is_default c = false -> lookup "environment" (D c) = None)) ->
+  lookup k (default_environment c launch) = layered c "environment" k.
+Proof.
+  intros Hd Hn. unfold default_environment. destruct (get_environment c "environment") as [e|] eqn:E.
+  - apply (get_environment_lookup c "environment" e k); [reflexivity|discriminate|apply dict_cfg_D; exact Hd|apply dict_cfg_P; exact Hd|exact E].
+  - exfalso. apply Hn. apply get_environment_unknown in E; [exact E|reflexivity|discriminate].
+Qed.
+
+Lemma selected_NoDup c launch name sel : NoDup (keys launch) -> selected c launch name = Ok sel -> NoDup (keys sel).
+Proof.
+  intros Hl. unfold selected.
+  destruct (String.eqb (norm_name name) "" || String.eqb (norm_name name) "environment").
+  - intros [= <-]. unfold default_environment. destruct (get_environment c "environment") eqn:E; [|exact Hl].
+    eapply get_environment_NoDup. exact E.
+  - destruct (String.eqb (norm_name name) "none"); [intros [= <-]; constructor|].
+    destruct (get_environment c (norm_name name)) eqn:E.
+    + intros [= <-]. eapply get_environment_NoDup. exact E.
+    + destruct (is_default c); [discriminate|]. unfold get_environment_default.
+      destruct (gpe (D c) (norm_name name)); [|discriminate]. intros [= <-]. apply NoDup_keys_update. constructor.
+Qed.
+
+  Lemma lookup_update_notin {V} k (m1 m2 : list (string * V)) : ~ In k (keys m2) -> lookup k (update m1 m2) = lookup k m1.
+  Proof.
+    unfold update. revert m1. induction m2 as [|[k2 v2] r IH]; intros m1 H; cbn [fold_left fst snd]; [reflexivity|].
+    rewrite keys_cons in H. rewrite IH by (intros E; apply H; right; exact E).
+    apply lookup_set_neq. intros ->. apply H. left. reflexivity.
+  Qed.
+
+
+(* ------------------------------------------------------------------ values *)
+Section Values.
+  Variable tsub : map -> string -> string.
+  Variable osexp : map -> string -> string.
+  Variable fillin : string -> string.
+
+  Lemma with_name_NoDup c launch name env :
+    NoDup (keys (sysv c)) ->
+    env_with_name tsub osexp c launch name false = Ok env -> NoDup (keys env).
+  Proof.
+    intros Hs. unfold env_with_name. destruct (selected c launch name) as [sel|] eqn:E; [|discriminate].
+    intros [= <-]. apply NoDup_keys_defaults_step. apply NoDup_keys_update. exact Hs.
+  Qed.
+
+  (* unexpanded value of a variable that is not imported through DEFAULTS: selected environment over
+     system variables *)
+  Lemma unexpanded_value c launch name sel env k :
+    NoDup (keys launch) ->
+    env_with_name tsub osexp c launch name false = Ok env ->
+    selected c launch name = Ok sel ->
+    k <> LBL_DEFAULTS ->
+    ~ (In k (defaults_names (update (sysv c) sel)) /\ In k (keys launch)) ->
+    lookup k env = match lookup k sel with Some v => Some v | None => lookup k (sysv c) end.
+  Proof.
+    intros Hl He Hs Hk Hn. unfold env_with_name in He. rewrite Hs in He. injection He as <-.
+    rewrite lookup_defaults_step_other by assumption.
+    apply lookup_update. eapply selected_NoDup; eassumption.
+  Qed.
+
+  (* imported by name: a launch variable listed (once) in DEFAULTS and defined neither by the selected
+     environment nor as a system variable carries its launch value *)
+  Lemma imported_value c launch name sel env k lv :
+    env_with_name tsub osexp c launch name false = Ok env ->
+    selected c launch name = Ok sel ->
+    k <> LBL_DEFAULTS ->
+    NoDup (defaults_names (update (sysv c) sel)) -> In k (defaults_names (update (sysv c) sel)) ->
+    lookup k launch = Some lv -> ~ In k (keys sel) -> ~ In k (keys (sysv c)) ->
+    lookup k env = Some lv.
+  Proof.
+    intros He Hs Hk Hnd Hin Hl H1 H2. unfold env_with_name in He. rewrite Hs in He. injection He as <-.
+    unfold defaults_step. destruct (lookup LBL_DEFAULTS (update (sysv c) sel)) eqn:E.
+    - rewrite lookup_remove_neq by exact Hk. apply lookup_apply_defaults_import; try assumption.
+      apply lookup_None_iff. intros H. apply In_keys_update in H as [H|H]; contradiction.
+    - unfold defaults_names in Hin. rewrite E in Hin. destruct Hin.
+  Qed.
+
+  (* expansion: the task environment's value is the unexpanded value expanded first from the
+     (unexpanded) environment itself, then from the launch environment; empty values vanish *)
+  Lemma expanded_value c launch name env :
+    NoDup (keys (sysv c)) ->
+    env_with_name tsub osexp c launch name false = Ok env ->
+    exists res, env_with_name tsub osexp c launch name true = Ok res /\
+      forall k, lookup k res = match lookup k env with
+                               | Some v => if String.eqb v "" then None else Some (osexp launch (tsub env v))
+                               | None => None
+                               end.
+  Proof.
+    intros Hs He. unfold env_with_name in *. destruct (selected c launch name) as [sel|]; [|discriminate].
+    injection He as <-. eexists. split; [reflexivity|]. intros k. apply lookup_expand_step.
+    apply NoDup_keys_defaults_step. apply NoDup_keys_update. exact Hs.
+  Qed.
+
+  (* environmentForNode keeps every variable of environmentWithName (values through fill_in); the
+     interpreter variables never override one *)
+  Lemma for_node_value c launch name interp res out k :
+    env_with_name tsub osexp c launch name true = Ok res ->
+    env_for_node tsub osexp fillin c launch name interp = Ok out ->
+    In k (keys res) -> lookup k out = option_map fillin (lookup k res).
+  Proof.
+    intros Hr. unfold env_for_node. rewrite Hr. remember PATH_VARS as pv. intros [= <-] Hin.
+    destruct interp; [|apply (lookup_map_val fillin)].
+    rewrite lookup_update_notin; [apply (lookup_map_val fillin)|].
+    intros H. apply In_keys_interp_vars in H as [_ [_ H]]. apply H.
+    rewrite (keys_map_val (fun kv => fillin (snd kv))). exact Hin.
+  Qed.
+
+  (* an interpreter component has every search-path variable the launch environment has *)
+  Lemma interp_present c launch name out k :
+    env_for_node tsub osexp fillin c launch name true = Ok out ->
+    In k PATH_VARS -> In k (keys launch) -> In k (keys out).
+  Proof.
+    unfold env_for_node. remember PATH_VARS as pv. destruct (env_with_name tsub osexp c launch name true) as [e|]; [|discriminate].
+    intros [= <-] H1 H2. apply In_keys_update.
+    destruct (in_dec string_dec k (keys (List.map (fun kv => (fst kv, fillin (snd kv))) e))) as [i|n]; [left; exact i|].
+    right. apply In_keys_interp_vars. split; [exact H1|split; assumption].
+  Qed.
+
+  (* the empty environment: only the system variables (plus, for interpreters, the search-path variables) *)
+  Lemma none_env c launch name :
+    norm_name name = "none" -> lookup LBL_DEFAULTS (sysv c) = None ->
+    env_with_name tsub osexp c launch name false = Ok (sysv c).
+  Proof.
+    intros Hn Hd. unfold env_with_name. rewrite selected_none by exact Hn. cbn [update fold_left].
+    unfold defaults_step. rewrite Hd. reflexivity.
+  Qed.
+
+  (* every variable with a non-empty unexpanded value reaches the task *)
+  Lemma present c launch name interp env out k v :
+    NoDup (keys (sysv c)) ->
+    env_with_name tsub osexp c launch name false = Ok env ->
+    env_for_node tsub osexp fillin c launch name interp = Ok out ->
+    lookup k env = Some v -> v <> "" -> In k (keys out).
+  Proof.
+    intros Hs He Ho Hk Hv. destruct (expanded_value _ _ _ _ Hs He) as [res [Hr Hl]].
+    assert (Hin : In k (keys res)).
+    { specialize (Hl k). rewrite Hk in Hl. destruct (String.eqb_spec v ""); [contradiction|].
+      eapply lookup_Some_In. exact Hl. }
+    pose proof (for_node_value _ _ _ _ _ _ _ Hr Ho Hin) as H.
+    destruct (In_keys_lookup _ _ Hin) as [x Hx]. rewrite Hx in H. cbn in H.
+    eapply lookup_Some_In. exact H.
+  Qed.
+
+  Lemma unknown_propagates c launch name interp :
+    selected c launch name = ErrUnknown <->
+    env_for_node tsub osexp fillin c launch name interp = ErrUnknown.
+  Proof.
+    unfold env_for_node, env_with_name. destruct (selected c launch name); split; intros H; try discriminate; reflexivity.
+  Qed.
+End Values.
